@@ -53,7 +53,7 @@ pub const P9: &[SPos] = &[
 /// Every listed position must be a legal position with at least one legal move (machinery error
 /// otherwise: an illegal position - side not to move in check - is outside every property's domain).
 pub fn validate() -> Result<(), String> {
-    for p in P9 {
+    for p in P9.iter().chain(DENSE.iter()) {
         let (_, pos, _) = super::searchrun::open(p.fen, &hist(p)).map_err(|e| format!("search position {}: {e}", p.name))?;
         if pos.legal_moves().is_empty() {
             return Err(format!("search position {} has no legal move", p.name));
@@ -61,6 +61,15 @@ pub fn validate() -> Result<(), String> {
     }
     Ok(())
 }
+
+/// Capture-dense positions: the quiescence tree below almost every node is enormous, so a search
+/// only ends in time if the limits are also polled inside quiescence. Used ONLY with limits that
+/// end the search early (time, nodes, stop) - a depth-only search of these never finishes.
+pub const DENSE: &[SPos] = &[
+    SPos { name: "dense-queens", fen: "qqqqkqqq/1qq2qq1/8/8/8/8/1QQ2QQ1/QQQQKQQQ w - - 0 1", history: "" },
+    SPos { name: "dense-rooks-queens", fen: "rqrqkrqr/qrqrqrqr/8/8/8/8/QRQRQRQR/RQRQKRQR w - - 0 1", history: "" },
+    SPos { name: "dense-minor", fen: "nbnbkbnb/bnbnbnbn/8/8/8/8/NBNBNBNB/BNBNKNBN b - - 0 1", history: "" },
+];
 
 pub fn case_seed(p: &SPos) -> Seed {
     Seed {
